@@ -195,6 +195,7 @@ class Body:
         straight-line prefix of the path decide the switches that test them (the lowering of `matches!` and of
         `a || b` sets a flag in one block and tests it in the next)."""
         known = {}
+        variant = {}     # local -> index of the variant it was built as (`cf = Break(())` ... `match cf`)
         seen = set()
         b = start
         while True:
@@ -207,7 +208,16 @@ class Body:
             for s in blk.stmts:
                 if is_local(s["lhs"]):
                     rv = s["rv"]
+                    variant.pop(s["lhs"]["l"], None)
+                    if rv.get("k") == "agg" and rv.get("agg") == "adt" and isinstance(rv.get("vidx"), int):
+                        variant[s["lhs"]["l"]] = rv["vidx"]
                     v = const_int(rv["a"]) if rv.get("k") == "use" else None
+                    if v is None and rv.get("k") == "discr" and not rv["p"]["p"] and rv["p"]["l"] in variant:
+                        v = variant[rv["p"]["l"]]
+                    if v is None and rv.get("k") == "use":
+                        q0 = op_place(rv["a"])
+                        if q0 is not None and is_local(q0) and q0["l"] in variant:
+                            variant[s["lhs"]["l"]] = variant[q0["l"]]
                     if v is None and rv.get("k") == "use":
                         q = op_place(rv["a"])
                         if q is not None and is_local(q) and q["l"] in known:
